@@ -82,7 +82,7 @@ def rule_panic(c, prog, g, dreach):
                 # computed discharges (sa.bounds): independent of names, loop order and helper structure
                 if nest is None:
                     nest = bounds.nest_bounds(fn, lambda root, depth, fn=fn: param_dim(fn, root, depth))
-                why_c = bounds.const_index(s) or bounds.enum_index(fn, s) or nest.get(id(s["node"])) or bounds.guarded_index(fn, s) or bounds.chunk_index(fn, s)
+                why_c = bounds.const_index(s) or bounds.enum_index(fn, s) or nest.get(id(s["node"])) or bounds.guarded_index(fn, s) or bounds.chunk_index(fn, s) or bounds.str_slice_guarded(fn, s)
                 if why_c:
                     computed += 1
                     c.ok(R, inst)
